@@ -34,4 +34,36 @@ def type_bads_state(c):
             'self.optim_state["mesh_size"]', 'self.optim_state["tol_mesh"]', 'self.optim_state["search_mesh_size"]',
             "self.search_mesh_size", 'self.optim_state["search_sufficient_improvement"]', "self.f_q_historic_improvement")
     c.bools("self.reset_gp", "self.gp_refitted_flag")
+    c.arr("self.u", 1, ["self.D"])
+    c.arr("self.u_best", 1, ["self.D"])
+    c.arr("self.lower_bounds", 2, [1, "self.D"], ext="lo")
+    c.arr("self.upper_bounds", 2, [1, "self.D"], ext="hi")
+    for k in ("lb", "lb_search"):
+        c.arr('self.optim_state["%s"]' % k, 2, [1, "self.D"], ext="lo")
+    for k in ("ub", "ub_search"):
+        c.arr('self.optim_state["%s"]' % k, 2, [1, "self.D"], ext="hi")
     return c
+
+
+def inv_bads(c, ensure=True):
+    """Class invariant of BADS between public operations (established by __init__, preserved by every method under contract)."""
+    from .function_logger import wf_at, log_types
+    from .transformer import vt_types
+    log_types(c, "self.function_logger")
+    vt_types(c, "self.function_logger.variable_transformer")
+    c.bools("ghost.cons_none")
+    clauses = {
+        "inv_logger_wf": wf_at("self.function_logger"),
+        "inv_transformed": "truthy(self.function_logger.transform_variables) and self.function_logger.variable_transformer.D == self.function_logger.D "
+                           "and self.function_logger.D == self.D",
+        "inv_vt_order": "forall(self.D, lambda j: self.function_logger.variable_transformer.orig_lb[0][j] <= self.function_logger.variable_transformer.orig_ub[0][j])",
+        "inv_cons_ghost": "isnone(self.non_box_cons) == ghost.cons_none",
+        "inv_tol_mesh": "self.optim_state['tol_mesh'] > 0",
+        "inv_var_transf": "self.var_transf.D == self.D and forall(self.D, lambda j: self.var_transf.orig_lb[0][j] <= self.var_transf.orig_ub[0][j])",
+    }
+    vt_types(c, "self.var_transf")
+    for k, v in clauses.items():
+        c.req(k, v)
+        if ensure:
+            c.ens(k, v)
+    return clauses
